@@ -160,6 +160,15 @@ CLAIMS = {
          "near-misses of B and T.",
          "Trusted: Coq kernel + vm_compute; model; harness; ParCons' outcome when its auxiliary is not relevant depends on component sizes (left open by the model).",
          "DESIGN.md section 4, C14"),
+ "C15": ("Abstract-machine theorems in Coq (thin) + history correspondence with order-sensitive snapshots compared in Coq",
+         "The proof part is deliberately thin: in a pure model inputs cannot change, so the theorems only fix the machine the library must "
+         "refine (state after any call sequence = initial state; outputs = outputs on fresh copies; repeated deterministic call = same "
+         "output). Refinement is decided by translation validation of histories: 3-12 calls drawn from 21 operations on SHARED dataset and "
+         "scheme objects; after every call the complete order-sensitive snapshot (bucket listing order, positions dicts, both id maps, flags, "
+         "universe, both matrices, name, penalty vectors) is compared in Coq with the initial one, and each output with the output on fresh "
+         "deep copies and with a second call.",
+         "Trusted: Coq kernel + vm_compute; harness (deep copies, public accessors); Python aliasing semantics itself is not modelled.",
+         "DESIGN.md section 4, C15"),
 }
 NOT_YET = "check not built yet in this phase (planned: DESIGN.md section 4); no claim is made"
 
